@@ -12,6 +12,14 @@ package main
 // whenever the status of the frame is one of those statuses. If the marked frame is taken at a fixed
 // index (the top), `defer cleanup(); r := recover()` returns nil, the panic is not recovered and Run
 // reports a *PanicError (or a chain with wrong recovered flags) for a program that recovered.
+// Conversely the loop moves on ONLY over those statuses: a frame in any other status (started, tailed,
+// returned, recovered) between the top and the panicking frame means that recover was not called by the
+// deferred function the panic runs, and Go's recover returns nil there; passing over it stops a panic that
+// must reach Run. Which statuses make the loop go on is decided from syntax on the finite domain of the
+// status constants (every comparison of the frame's status with a constant evaluated for one K, the update
+// of the index on a cycle). The marking may be in the handler, or in a function of the package whose true
+// result guards the read of the message (`if vm.recoverFrame(last) { msg = … }`), also through a pointer
+// to the frame; the index may come from a helper that does the search.
 //
 // Everything is resolved by role: the call stack is the VM field the run driver appends a frame literal
 // to; the status field is the field that literal fills with a constant; the statuses to pass over are
@@ -22,6 +30,7 @@ import (
 	"go/ast"
 	"go/token"
 	"go/types"
+	"sort"
 	"strings"
 
 	"golang.org/x/tools/go/cfg"
@@ -34,7 +43,7 @@ func init() {
 	}
 	run := p.run
 	p.run = func(r *Run) { run(r); c12FrameSearch(r) }
-	p.explain += " R-8: the frame that the recover instruction marks as recovered (in the code that reads vm.panic.message) is indexed by a variable that a loop moves on while the frame's status is one the interpreter pushes without leaving the running function (the defer instruction's `deferred`); a frame taken at a fixed index misses the panicking frame as soon as the deferred function has executed a defer statement of its own."
+	p.explain += " R-8: the frame that the recover instruction marks as recovered (in the code that reads vm.panic.message, or in a function of the package whose true result guards that read) is indexed by a variable that a loop moves on exactly while the frame's status is one the interpreter pushes without leaving the running function (the defer instruction's `deferred`), the statuses being decided on the finite domain of the status constants: a frame taken at a fixed index misses the panicking frame as soon as the deferred function has executed a defer statement of its own, and a search that also passes over frames in another status lets recover succeed when it was not called by the deferred function the panic runs."
 }
 
 type c12fs struct {
@@ -327,28 +336,26 @@ func c12DefsAddrOK(info *types.Info, body ast.Node, obj types.Object) ([]ast.Exp
 	return c11Defs(info, body, obj)
 }
 
-// litStates reports whether the edge literal l states "status of frame v == k" (v nil: any variable;
-// the variable found is returned).
-func (x *c12fs) litStates(body ast.Node, l Lit, v types.Object, k *types.Const) (types.Object, bool) {
+// statusLit decomposes an edge literal about the status of a frame vm.calls[w]: it returns w, the constant
+// the status is compared with, and whether the literal states equality (false: inequality).
+func (x *c12fs) statusLit(body ast.Node, l Lit) (w types.Object, k *types.Const, eq bool, ok bool) {
 	if l.Tag != nil {
-		if !l.Truth || constOf(x.info, l.Expr) != k {
-			return nil, false
-		}
-		w := x.statusOf(body, l.Tag, 0)
-		return w, w != nil && (v == nil || w == v)
+		k = constOf(x.info, l.Expr)
+		w = x.statusOf(body, l.Tag, 0)
+		return w, k, l.Truth, w != nil && k != nil
 	}
-	be, ok := ast.Unparen(l.Expr).(*ast.BinaryExpr)
-	if !ok || (be.Op != token.EQL && be.Op != token.NEQ) || (be.Op == token.EQL) != l.Truth {
-		return nil, false
+	be, isBin := ast.Unparen(l.Expr).(*ast.BinaryExpr)
+	if !isBin || (be.Op != token.EQL && be.Op != token.NEQ) {
+		return nil, nil, false, false
 	}
 	for _, p := range [][2]ast.Expr{{be.X, be.Y}, {be.Y, be.X}} {
-		if constOf(x.info, p[1]) == k {
-			if w := x.statusOf(body, p[0], 0); w != nil && (v == nil || w == v) {
-				return w, true
+		if k = constOf(x.info, p[1]); k != nil {
+			if w = x.statusOf(body, p[0], 0); w != nil {
+				return w, k, (be.Op == token.EQL) == l.Truth, true
 			}
 		}
 	}
-	return nil, false
+	return nil, nil, false, false
 }
 
 func c12Updates(info *types.Info, n ast.Node, v types.Object) bool {
@@ -373,11 +380,70 @@ func c12Updates(info *types.Info, n ast.Node, v types.Object) bool {
 	return found
 }
 
-// searches reports whether, inside region (a node of fi's body), a loop moves the index variable v on
-// while the status of the frame it denotes is k: some branch states status(v)==k on an edge from which an
-// update of v is reached, and the update leads back to the branch, all inside region and without
-// executing the node `mark`.
-func (x *c12fs) searches(fi *FuncInfo, region ast.Node, mark ast.Node, v types.Object, k *types.Const) bool {
+// eval3 evaluates a condition as if the status of the frame vm.calls[w] were K: 1 true, -1 false, 0 when the
+// condition depends on anything else.
+func (x *c12fs) eval3(body ast.Node, e ast.Expr, w types.Object, K *types.Const) int {
+	e = ast.Unparen(e)
+	switch v := e.(type) {
+	case *ast.UnaryExpr:
+		if v.Op == token.NOT {
+			return -x.eval3(body, v.X, w, K)
+		}
+	case *ast.BinaryExpr:
+		switch v.Op {
+		case token.LAND, token.LOR:
+			l, r := x.eval3(body, v.X, w, K), x.eval3(body, v.Y, w, K)
+			if v.Op == token.LOR {
+				l, r = -l, -r
+			}
+			// conjunction of l and r
+			res := 0
+			switch {
+			case l == -1 || r == -1:
+				res = -1
+			case l == 1 && r == 1:
+				res = 1
+			}
+			if v.Op == token.LOR {
+				res = -res
+			}
+			return res
+		case token.EQL, token.NEQ:
+			if lw, k, eq, ok := x.statusLit(body, Lit{Expr: v, Truth: true}); ok && lw == w {
+				if (k == K) == eq {
+					return 1
+				}
+				return -1
+			}
+		}
+	default:
+		// a bool local defined once by a condition
+		if obj := c11ObjOf(x.info, e); obj != nil {
+			if vv, ok := obj.(*types.Var); ok && !vv.IsField() {
+				if rhs, clean := c11Defs(x.info, body, obj); clean && len(rhs) == 1 {
+					if _, isIdent := ast.Unparen(rhs[0]).(*ast.Ident); !isIdent {
+						return x.eval3(body, rhs[0], w, K)
+					}
+				}
+			}
+		}
+	}
+	return 0
+}
+
+// continues computes, on the finite domain of the status constants, the statuses under which a loop of
+// fi moves the index variable v on to the next frame: K belongs to the result when, every comparison of
+// the status of vm.calls[v] with a constant being decided as if the status were K, an update of v lies on a
+// cycle that stays inside region and does not execute the node `mark`. All the status tests between two
+// updates of v look at the same frame, so deciding them with one K is exact; tests the rule cannot read
+// are left undecided (both edges kept). v == nil: every variable that indexes a frame whose status is
+// tested in region is tried and the results are united.
+func (x *c12fs) continues(fi *FuncInfo, region ast.Node, mark ast.Node, v types.Object) map[*types.Const]bool {
+	out := map[*types.Const]bool{}
+	nt, _ := x.fStatus.Type().(*types.Named)
+	if nt == nil {
+		return out
+	}
 	c := x.r.P.CFGOf(fi)
 	body := ast.Node(fi.Decl.Body)
 	var markBlk *cfg.Block
@@ -395,23 +461,46 @@ func (x *c12fs) searches(fi *FuncInfo, region ast.Node, mark ast.Node, v types.O
 		}
 		return false
 	}
-	for _, b := range c.G.Blocks {
-		if !b.Live || len(b.Succs) != 2 || outside(b) {
-			continue
-		}
-		for i := range b.Succs {
-			var w types.Object
-			hit := false
-			for _, l := range c.edgeLits(b, i) {
-				if ww, ok := x.litStates(body, l, v, k); ok {
-					w, hit = ww, true
-				}
-			}
-			if !hit {
+	vars := []types.Object{v}
+	if v == nil {
+		vars = nil
+		seen := map[types.Object]bool{}
+		for _, b := range c.G.Blocks {
+			if !b.Live || outside(b) {
 				continue
 			}
+			for i := range b.Succs {
+				for _, l := range c.edgeLits(b, i) {
+					if w, _, _, ok := x.statusLit(body, l); ok && !seen[w] {
+						seen[w] = true
+						vars = append(vars, w)
+					}
+				}
+			}
+		}
+	}
+	for _, w := range vars {
+		for _, K := range EnumConsts(nt) {
+			cut := func(b *cfg.Block, i int) bool {
+				cd := c.CondOf(b)
+				if cd == nil {
+					return false
+				}
+				var val int // 1 true, -1 false, 0 not decided
+				if cd.Tag != nil {
+					if lw, k, _, ok := x.statusLit(body, Lit{Expr: cd.Expr, Tag: cd.Tag, Truth: true}); ok && lw == w {
+						val = -1
+						if k == K {
+							val = 1
+						}
+					}
+				} else {
+					val = x.eval3(body, cd.Expr, w, K)
+				}
+				return (i == 0 && val == -1) || (i == 1 && val == 1)
+			}
 			for _, u := range c.G.Blocks {
-				if !u.Live || outside(u) {
+				if out[K] || !u.Live || outside(u) {
 					continue
 				}
 				upd := false
@@ -423,15 +512,74 @@ func (x *c12fs) searches(fi *FuncInfo, region ast.Node, mark ast.Node, v types.O
 				if !upd {
 					continue
 				}
-				fromEdge := c.reachable(b.Succs[i], u, nil, outside)
-				back := c.reachable(u, b, nil, outside)
-				if fromEdge && back {
-					return true
+				for i, sc := range u.Succs {
+					if cut(u, i) {
+						continue
+					}
+					if sc == u || (!outside(sc) && c.reachable(sc, u, cut, outside)) {
+						out[K] = true
+					}
 				}
 			}
 		}
 	}
-	return false
+	return out
+}
+
+// guardingHelpers lists the functions of the package whose call, being true, guards the node `site` of fi
+// (directly as a condition, or through a bool local defined once by the call).
+func (x *c12fs) guardingHelpers(fi *FuncInfo, region ast.Node, site ast.Node) []*FuncInfo {
+	var out []*FuncInfo
+	c := x.r.P.CFGOf(fi)
+	for _, call := range calls(region, false) {
+		fn := callee(x.info, call)
+		if fn == nil || fn.Pkg() != x.a.pk.Types {
+			continue
+		}
+		isCall := func(e ast.Expr) bool {
+			e = ast.Unparen(e)
+			if e == ast.Expr(call) {
+				return true
+			}
+			if obj := c11ObjOf(x.info, e); obj != nil {
+				if rhs, clean := c11Defs(x.info, fi.Decl.Body, obj); clean && len(rhs) == 1 && ast.Unparen(rhs[0]) == ast.Expr(call) {
+					return true
+				}
+			}
+			return false
+		}
+		if !c.GuardedBy(site, func(l Lit) bool { return l.Tag == nil && l.Truth && isCall(l.Expr) }) {
+			continue
+		}
+		for _, h := range x.r.P.Funcs(c11RT) {
+			if h.Obj == fn {
+				out = append(out, h)
+			}
+		}
+	}
+	return out
+}
+
+type c12Mark struct {
+	fi     *FuncInfo
+	region ast.Node
+	as     *ast.AssignStmt
+	sel    *ast.SelectorExpr
+}
+
+func (x *c12fs) marksIn(fi *FuncInfo, region ast.Node) []c12Mark {
+	var marks []c12Mark
+	ast.Inspect(region, func(n ast.Node) bool {
+		if as, ok := n.(*ast.AssignStmt); ok {
+			for _, l := range as.Lhs {
+				if se, ok := ast.Unparen(l).(*ast.SelectorExpr); ok && c11FieldOf(x.info, se) == x.fStatus {
+					marks = append(marks, c12Mark{fi, region, as, se})
+				}
+			}
+		}
+		return true
+	})
+	return marks
 }
 
 func (x *c12fs) checkRecover(R string, fi *FuncInfo, read *ast.SelectorExpr, skip []*types.Const) {
@@ -448,71 +596,78 @@ func (x *c12fs) checkRecover(R string, fi *FuncInfo, read *ast.SelectorExpr, ski
 		}
 	}
 	key := fi.Name() + "#" + label + "recovered-frame-is-searched"
-	// the frames whose status the region assigns
-	type markT struct {
-		as  *ast.AssignStmt
-		sel *ast.SelectorExpr
-	}
-	var marks []markT
-	ast.Inspect(region, func(n ast.Node) bool {
-		if as, ok := n.(*ast.AssignStmt); ok {
-			for _, l := range as.Lhs {
-				if se, ok := ast.Unparen(l).(*ast.SelectorExpr); ok && c11FieldOf(x.info, se) == x.fStatus {
-					marks = append(marks, markT{as, se})
-				}
-			}
-		}
-		return true
-	})
+	// the frames whose status the region assigns; when there is none, those assigned by a function of the
+	// package whose true result guards the read (`if vm.recoverFrame(last) { msg = … vm.panic.message }`)
+	marks := x.marksIn(fi, region)
 	if len(marks) == 0 {
-		r.Ob(R, key, read.Pos()).Unknown("the code that reads vm.%s.%s does not assign the status of a frame of vm.%s: the rule cannot see which frame recover marks", a.fPanic.Name(), read.Sel.Name, x.fCalls.Name())
+		for _, h := range x.guardingHelpers(fi, region, read) {
+			marks = append(marks, x.marksIn(h, h.Decl.Body)...)
+		}
+	}
+	if len(marks) == 0 {
+		r.Ob(R, key, read.Pos()).Unknown("neither the code that reads vm.%s.%s nor a function of the package whose result guards the read assigns the status of a frame of vm.%s: the rule cannot see which frame recover marks", a.fPanic.Name(), read.Sel.Name, x.fCalls.Name())
 		return
 	}
+	inSkip := map[*types.Const]bool{}
 	var names []string
 	for _, k := range skip {
+		inSkip[k] = true
 		names = append(names, k.Name())
 	}
 	for _, m := range marks {
 		o := r.Ob(R, key, m.as.Pos())
-		v := x.frameIndex(fi.Decl.Body, m.sel.X, 0)
+		where := ""
+		if m.fi.Obj != fi.Obj {
+			where = " (in " + m.fi.Name() + ", whose result guards the read of the message)"
+		}
+		v := x.frameIndex(m.fi.Decl.Body, m.sel.X, 0)
 		if v == nil {
 			// a frame at an index that is not a variable
 			if ix, ok := ast.Unparen(m.sel.X).(*ast.IndexExpr); ok && c11FieldOf(x.info, ix.X) == x.fCalls {
-				o.Bad("recover marks the frame vm.%s[%s], an index that no search produced: frames in status %s, pushed on top of the panicking frame by a deferred function that executes a defer statement before calling recover, are not passed over; recover returns nil there and the panic is reported as not recovered", x.fCalls.Name(), exprStr(ix.Index), strings.Join(names, ", "))
+				o.Bad("recover marks the frame vm.%s[%s]%s, an index that no search produced: frames in status %s, pushed on top of the panicking frame by a deferred function that executes a defer statement before calling recover, are not passed over; recover returns nil there and the panic is reported as not recovered", x.fCalls.Name(), exprStr(ix.Index), where, strings.Join(names, ", "))
 			} else {
-				o.Unknown("the frame whose status is assigned (%s) is not an element of vm.%s indexed by a variable", exprStr(m.sel.X), x.fCalls.Name())
+				o.Unknown("the frame whose status is assigned (%s)%s is not an element of vm.%s indexed by a variable", exprStr(m.sel.X), where, x.fCalls.Name())
 			}
 			continue
 		}
-		var missing []string
-		for _, k := range skip {
-			if x.searches(fi, region, m.as, v, k) {
-				continue
-			}
-			// the index may come from a helper of the package that does the search
-			viaHelper := false
-			if rhs, clean := c11Defs(x.info, fi.Decl.Body, v); clean {
-				for _, e := range rhs {
-					if call, ok := ast.Unparen(e).(*ast.CallExpr); ok {
-						if fn := callee(x.info, call); fn != nil && fn.Pkg() == a.pk.Types {
-							for _, h := range r.P.Funcs(c11RT) {
-								if h.Obj == fn && x.searches(h, h.Decl.Body, nil, nil, k) {
-									viaHelper = true
+		cont := x.continues(m.fi, m.region, m.as, v)
+		// the index may come from a helper of the package that does the search
+		if rhs, clean := c11Defs(x.info, m.fi.Decl.Body, v); clean {
+			for _, e := range rhs {
+				if call, ok := ast.Unparen(e).(*ast.CallExpr); ok {
+					if fn := callee(x.info, call); fn != nil && fn.Pkg() == a.pk.Types {
+						for _, h := range r.P.Funcs(c11RT) {
+							if h.Obj == fn {
+								for k := range x.continues(h, h.Decl.Body, nil, nil) {
+									cont[k] = true
 								}
 							}
 						}
 					}
 				}
 			}
-			if !viaHelper {
+		}
+		var missing, extra []string
+		for _, k := range skip {
+			if !cont[k] {
 				missing = append(missing, k.Name())
 			}
 		}
-		if len(missing) > 0 {
-			o.Bad("recover marks the frame vm.%s[%s], but no loop moves %s on while the status of that frame is %s. The interpreter pushes frames in that status on the call stack while the function keeps running (the defer instruction), so a deferred function that executes `defer f()` before `recover()` has them between the top of the stack and the panicking frame: recover returns nil, the frame is not marked and vm.%s.recovered stays false — Run returns a *PanicError for a panic the program recovered, or a chain with wrong recovered flags",
-				x.fCalls.Name(), v.Name(), v.Name(), strings.Join(missing, ", "), a.fPanic.Name())
-			continue
+		for k := range cont {
+			if !inSkip[k] {
+				extra = append(extra, k.Name())
+			}
 		}
-		o.OK("the frame marked is vm.%s[%s]; a loop moves %s on while the frame's status is %s (the statuses pushed by handlers that stay in the running function)", x.fCalls.Name(), v.Name(), v.Name(), strings.Join(names, ", "))
+		sort.Strings(extra)
+		switch {
+		case len(missing) > 0:
+			o.Bad("recover marks the frame vm.%s[%s]%s, but no loop moves %s on while the status of that frame is %s. The interpreter pushes frames in that status on the call stack while the function keeps running (the defer instruction), so a deferred function that executes `defer f()` before `recover()` has them between the top of the stack and the panicking frame: recover returns nil, the frame is not marked and vm.%s.recovered stays false — Run returns a *PanicError for a panic the program recovered, or a chain with wrong recovered flags",
+				x.fCalls.Name(), v.Name(), where, v.Name(), strings.Join(missing, ", "), a.fPanic.Name())
+		case len(extra) > 0:
+			o.Bad("the search for the frame that recover marks (vm.%s[%s]%s) also moves on over frames in status %s. Only the statuses pushed while the function keeps running (%s) lie between a deferred function called by the panic and the panicking frame; a frame in another status means that recover was not called by that deferred function (it was called by a function it calls, or by a call it deferred that runs after it returned). Passing over it, recover finds the panicking frame and stops a panic that must go on: Run returns nil, or a chain with a wrong recovered flag, instead of the *PanicError of the unrecovered panic",
+				x.fCalls.Name(), v.Name(), where, strings.Join(extra, ", "), strings.Join(names, ", "))
+		default:
+			o.OK("the frame marked is vm.%s[%s]%s; a loop moves %s on exactly while the frame's status is %s (the statuses pushed by handlers that stay in the running function)", x.fCalls.Name(), v.Name(), where, v.Name(), strings.Join(names, ", "))
+		}
 	}
 }
